@@ -1,1 +1,203 @@
 // verification harness (compiled into ntpd/src/daemon/sockets.rs under cfg(all(test, pendulum_project_ntpd_rs_verif)))
+//
+// Harness for spec/Framing.tla part 1 (C38, framing): materialises every stream class [len, prefix, avail, json, chunk]
+// as an in-memory byte stream that counts what is read from it (and hands out at most `chunk` bytes per read call),
+// runs the real read_json on it and reports the result class and how many prefix / payload bytes were consumed.
+// Also checks the frame written by write_json (length prefix = payload length, big endian).
+#![allow(clippy::all, dead_code)]
+
+use super::*;
+use serde_json::{Value, json};
+use std::pin::Pin;
+use std::task::{Context, Poll};
+use tokio::io::ReadBuf;
+
+#[path = "/verif/harness/common/util.rs"]
+mod util;
+
+pub(crate) struct CountingStream {
+    pub data: Vec<u8>,
+    pub pos: usize,
+    pub chunk: usize, // 0 = unlimited
+    pub reads: Vec<usize>,
+}
+
+impl AsyncRead for CountingStream {
+    fn poll_read(mut self: Pin<&mut Self>, _cx: &mut Context<'_>, buf: &mut ReadBuf<'_>) -> Poll<std::io::Result<()>> {
+        let left = self.data.len() - self.pos;
+        let mut n = left.min(buf.remaining());
+        if self.chunk > 0 {
+            n = n.min(self.chunk);
+        }
+        let (a, b) = (self.pos, self.pos + n);
+        buf.put_slice(&self.data[a..b]);
+        self.pos = b;
+        self.reads.push(n);
+        Poll::Ready(Ok(()))
+    }
+}
+
+// 1 MiB as stated by the property, deliberately NOT taken from the code's MAX_JSON_MESSAGE_SIZE
+const MAX: u64 = 1 << 20;
+
+fn len_of(tok: &str) -> u64 {
+    match tok {
+        "0" => 0,
+        "1" => 1,
+        "Max-1" => MAX - 1,
+        "Max" => MAX,
+        "Max+1" => MAX + 1,
+        "2^32" => 1 << 32,
+        "2^64-1" => u64::MAX,
+        t => panic!("unknown length token {t}"),
+    }
+}
+
+/// JSON text of exactly n bytes (n >= 1): a number for n = 1, otherwise a string literal; `valid = false` breaks it.
+fn json_text(n: usize, valid: bool) -> Vec<u8> {
+    let mut v = if n == 1 {
+        vec![b'7']
+    } else {
+        let mut s = vec![b'a'; n];
+        s[0] = b'"';
+        s[n - 1] = b'"';
+        s
+    };
+    if !valid {
+        v[0] = b'}';
+    }
+    v
+}
+
+fn run_class(c: &Value, rt: &tokio::runtime::Runtime) -> (Value, Option<String>) {
+    let l = len_of(c["len"].as_str().unwrap());
+    let mut data: Vec<u8> = vec![];
+    let prefix = l.to_be_bytes();
+    let plen = match c["prefix"].as_str().unwrap() {
+        "full" => 8,
+        "cut7" => 7,
+        _ => 0,
+    };
+    data.extend_from_slice(&prefix[..plen]);
+    let valid = c["json"] == json!("valid");
+    let avail = c["avail"].as_str().unwrap();
+    let payload_avail: usize = match avail {
+        "exact" | "extra" => {
+            if l > 0 {
+                data.extend_from_slice(&json_text(l as usize, valid));
+            }
+            if avail == "extra" {
+                data.extend_from_slice(&[0, 0, 0, 0, 0]);
+                l as usize + 5
+            } else {
+                l as usize
+            }
+        }
+        "short" => {
+            let t = json_text(l as usize, valid);
+            data.extend_from_slice(&t[..t.len() - 1]);
+            l as usize - 1
+        }
+        "some" => {
+            data.extend_from_slice(&[b'x'; 16]);
+            16
+        }
+        _ => 0,
+    };
+    let mut stream = CountingStream { data, pos: 0, chunk: c["chunk"].as_u64().unwrap() as usize, reads: vec![] };
+    let mut buffer = vec![1u8, 2, 3];
+    let res = util::catch(|| rt.block_on(read_json::<Value>(&mut stream, &mut buffer)));
+    let consumed = stream.pos;
+    let p = consumed.min(plen);
+    let pay = consumed - p;
+    let payload = if pay == 0 {
+        "none"
+    } else if pay as u64 == l {
+        "len"
+    } else if pay == payload_avail && (pay as u64) < l {
+        "all-available"
+    } else {
+        "other"
+    };
+    // order: no payload byte may be handed out before the 8 prefix bytes are complete, and a rejected message
+    // performs no further read call after the prefix
+    let mut seen = 0usize;
+    let mut order = "prefix-first";
+    for n in &stream.reads {
+        if seen < plen && seen + n > plen {
+            order = "read-across-prefix-boundary";
+        }
+        seen += n;
+    }
+    match res {
+        Err(pn) => (json!({"result": "panic", "prefix": p, "payload": payload, "order": order}), Some(pn)),
+        Ok(r) => {
+            let result = match &r {
+                Ok(_) => "value",
+                Err(e) if e.kind() == std::io::ErrorKind::UnexpectedEof => "eof",
+                Err(e) if e.kind() == std::io::ErrorKind::InvalidInput && e.to_string() == "message too large" => "too-large",
+                Err(e) if e.kind() == std::io::ErrorKind::InvalidInput => "bad-json",
+                Err(_) => "other-error",
+            };
+            if result == "too-large" && stream.reads.iter().sum::<usize>() != 8 {
+                order = "read-after-reject";
+            }
+            (json!({"result": result, "prefix": p, "payload": payload, "order": order, "consumed": consumed, "read_calls": stream.reads.len()}), None)
+        }
+    }
+}
+
+/// write_json frames: 8-byte big-endian length, then exactly that many bytes, which are the JSON text of the value
+fn write_frame_ok(rt: &tokio::runtime::Runtime) -> Result<(), String> {
+    for v in [json!(null), json!([1, 2, 3]), json!({"a": "b", "n": 1.5}), json!("x".repeat(70_000))] {
+        let mut sink: Vec<u8> = vec![];
+        rt.block_on(write_json(&mut sink, &v)).map_err(|e| e.to_string())?;
+        if sink.len() < 8 {
+            return Err("frame shorter than its prefix".into());
+        }
+        let l = u64::from_be_bytes(sink[..8].try_into().unwrap());
+        if l as usize != sink.len() - 8 {
+            return Err(format!("prefix {l} but {} payload bytes", sink.len() - 8));
+        }
+        let back: Value = serde_json::from_slice(&sink[8..]).map_err(|e| e.to_string())?;
+        if back != v {
+            return Err("payload is not the JSON text of the value".into());
+        }
+    }
+    Ok(())
+}
+
+fn replay(job: &Value) {
+    let rows = util::read_ndjson(job["input"].as_str().unwrap());
+    let mut out = util::NdjsonOut::create(job["output"].as_str().unwrap());
+    let rt = tokio::runtime::Builder::new_current_thread().enable_all().build().unwrap();
+    let wf = match util::catch(|| write_frame_ok(&rt)) {
+        Ok(Ok(())) => json!("ok"),
+        Ok(Err(e)) => json!(e),
+        Err(p) => json!(format!("panic: {p}")),
+    };
+    out.put(&json!({"id": -1, "write_frame": wf}));
+    for r in rows {
+        let (obs, panic) = run_class(&r["act"]["c"], &rt);
+        let mut d: Vec<String> = vec![];
+        if panic.is_some() {
+            d.push("panic".to_string());
+        }
+        for k in ["result", "prefix", "payload", "order"] {
+            if r["out"][k] != obs[k] {
+                d.push(format!("out.{k}"));
+            }
+        }
+        out.put(&json!({"id": r["id"], "fields": d, "observed": obs, "panic": panic}));
+    }
+    out.finish();
+}
+
+#[test]
+fn verif_framing() {
+    let job = util::job();
+    match job["mode"].as_str().unwrap() {
+        "replay" => replay(&job),
+        m => panic!("unknown mode {m}"),
+    }
+}
